@@ -14,7 +14,7 @@ ID = 'C02'
 LEVEL = 'exploration'
 RUNS = {'quick': 20000, 'thorough': 400000}
 CHUNK = 60
-PROBES = ['record_with_zero_timestamp_and_debugid', 'pid_with_top_bit_set', 'abandoned_parse_before', 'crashed_parse_before', 'v3_with_logs_before', 'residue_before', 'duplicate_tid_in_map',
+PROBES = ['large_capture', 'record_with_zero_timestamp_and_debugid', 'pid_with_top_bit_set', 'abandoned_parse_before', 'crashed_parse_before', 'v3_with_logs_before', 'residue_before', 'duplicate_tid_in_map',
           'duplicate_pid_in_map', 'empty_map', 'pad_nonzero', 'pad_zero', 'arbitrary_record_bytes', 'name_19_bytes',
           'bytes_after_nul', 'same_kdbuf_object_reused', 'zero_records', 'first_record_leading_zero']
 RULE = ('one run = a history of 1..7 operations on one long-lived table pair (full / abandoned / crashed / v3 parses, residue '
@@ -79,6 +79,12 @@ def generate(rng, index, tier):
             hist.append({'op': 'residue', 'tp': [[rng.randrange(1, 1 << 20), rng.randrange(1, 9999)] for _ in range(rng.randint(1, 3))],
                          'pn': [[rng.randrange(1, 9999), rng.ident()] for _ in range(rng.randint(0, 3))]})
     judged = _gen_file(rng)
+    if index % 211 == 9:
+        # a big capture: hundreds or thousands of thread-map entries (with repeated tids/pids) and of records
+        n = [260, 1030, 4100, 70000][(index // 211) % 4]
+        judged['writer']['tmap'] = [[rng.randrange(1, 3000), rng.randrange(1, 500), rng.ident(1, 10), ''] for _ in range(n)]
+        judged['raw_records'] = [(bytes([1 + i % 255]) + rng.randbytes(63)).hex() for i in range([300, 1100, 5000][(index // 211) % 3])]
+        judged.pop('zero_lead', None)
     if rng.chance(0.04):
         # finding F11: a first record that begins with zero bytes (statement: "including records that begin with zero bytes")
         judged['zero_lead'] = rng.randint(1, 8)
@@ -175,6 +181,8 @@ def execute(scn):
         bump('probe:duplicate_pid_in_map')
     if not tids:
         bump('probe:empty_map')
+    if len(tids) >= 256:
+        bump('probe:large_capture')
     bump('probe:pad_nonzero' if w.get('pad') else 'probe:pad_zero')
     if 'raw_records' in f:
         bump('probe:arbitrary_record_bytes')
